@@ -352,6 +352,8 @@ def freeze(G):
     G.remove_edges_from = frozen
     G.clear = frozen
     G.clear_edges = frozen
+    G.update_node_attr = frozen
+    G.update_node_attr_from = frozen
     G.frozen = True
     return G
 
@@ -522,6 +524,9 @@ def set_node_attributes(G, values, name=None):
            applied to every node in `G`.
 
         """
+    if is_frozen(G):
+        frozen()
+
     # Set node attributes based on type of `values`
     if name is not None:  # `values` must not be a dict of dict
         try:  # `values` is a dict
